@@ -952,6 +952,65 @@ impl Oracle for C04 {
                 }
             }
         }
+        // near-identical positions (one right removed, e.p. marker dropped, side flipped, one man
+        // removed): whenever the board type calls two boards equal their hashes must be equal, and
+        // clock-only variants (also WITH an e.p. marker) must be equal and hash equal
+        if self.nodes % 5 == 0 || n.focus {
+            let mut variants: Vec<(&str, Position)> = Vec::new();
+            for i in 0..4 {
+                if n.model.castle[i] {
+                    let mut q = n.model.clone();
+                    q.castle[i] = false;
+                    variants.push(("one-right-removed", q));
+                }
+            }
+            if n.model.ep.is_some() {
+                let mut q = n.model.clone();
+                q.ep = None;
+                variants.push(("ep-marker-dropped", q));
+                let mut q = n.model.clone();
+                q.half = 7;
+                q.full = (q.full + 3) % 9000;
+                variants.push(("clock-variant-with-ep", q));
+            }
+            {
+                let mut q = n.model.clone();
+                q.turn = q.turn.flip();
+                q.ep = None;
+                variants.push(("side-flipped", q));
+                let mut q = n.model.clone();
+                if let Some(s) = (0..64usize).find(|s| matches!(q.board[*s], Some((_, k)) if k != Kind::K)) {
+                    q.board[s] = None;
+                    q.ep = None;
+                    variants.push(("one-man-removed", q));
+                }
+            }
+            for (what, q) in variants {
+                if q.c06_ok().is_err() {
+                    continue;
+                }
+                let Ok(vb) = real::parse(&q.to_fen()) else { continue };
+                c.count("near-identical-variant-comparisons");
+                let same_identity = q.identity() == n.model.identity();
+                let eq = vb == *n.real;
+                let hash_eq = vb.zobrist() == h;
+                if eq && !hash_eq {
+                    c.violation(
+                        "equal-boards-hash-differently",
+                        what,
+                        format!("{fen} and {}: == says equal, hashes are {h:#x} and {:#x}", q.to_fen(), vb.zobrist()),
+                        n.replay().set("variant_fen", q.to_fen()),
+                    );
+                } else if same_identity && (!eq || !hash_eq) {
+                    c.violation(
+                        "clocks-influence-hash-or-eq",
+                        what,
+                        format!("{fen} vs {}: same placement/side/rights/e.p. but eq = {eq}, hashes {h:#x} vs {:#x}", q.to_fen(), vb.zobrist()),
+                        n.replay().set("variant_fen", q.to_fen()),
+                    );
+                }
+            }
+        }
         // identity table: the same position reached by a different history must hash the same
         let id = n.id_hash();
         if !n.moves.is_empty() {
